@@ -167,6 +167,7 @@ static void yield_point(std::unique_lock<std::mutex> &lk, int me) {
     g_cv.notify_all();
     return;
   }
+  g_out += "Y " + std::to_string(nx) + "\n";   // the scheduling decision taken at this point (for directed replays)
   g_turn = nx;
   g_cv.notify_all();
   if (nx != me && me >= 0 && !g_thr[me].finished) g_cv.wait(lk, [&] { return g_turn == me; });
@@ -207,6 +208,8 @@ extern "C" void libcuckoo_verif_hook(int kind, const void *obj, unsigned long a,
       auto it = g_lock_owner.find(obj);
       if (it != g_lock_owner.end() && it->second >= 0 && it->second != me)
         g_out += "FOREIGN-UNLOCK thread " + std::to_string(me) + " releases a lock owned by thread " + std::to_string(it->second) + "\n";
+      else if (it != g_lock_owner.end() && it->second < 0 && find_lock(obj, ai, li))
+        g_out += "FOREIGN-UNLOCK thread " + std::to_string(me) + " releases lock (" + std::to_string(ai) + "," + std::to_string(li) + ") which it does not hold (already free)\n";
     }
     g_lock_owner[obj] = -1;
     if (!find_lock(obj, ai, li)) return;
